@@ -24,7 +24,7 @@ verus!{
 #[verifier::external_type_specification] #[verifier::external_body] pub struct ExTextRange(TextRange);
 #[verifier::external_type_specification] #[verifier::external_body] pub struct ExSymbolMap(SymbolMap);
 #[verifier::external_type_specification] pub struct ExDiagnostic(Diagnostic);
-#[verifier::external_type_specification] #[verifier::external_body] pub struct ExRecord(Record);
+#[verifier::external_type_specification] pub struct ExRecord(Record);
 #[verifier::external_type_specification] #[verifier::external_body] pub struct ExMulticlass(Multiclass);
 #[verifier::external_type_specification] #[verifier::external_body] pub struct ExDefm(Defm);
 #[verifier::external_type_specification] pub struct ExTemplateArgument(TemplateArgument);
@@ -32,7 +32,7 @@ verus!{
 #[verifier::external_type_specification] pub struct ExRecordKind(RecordKind);
 #[verifier::external_type_specification] pub struct ExFileId(FileId);
 #[verifier::external_type_specification] pub struct ExFileRange(FileRange);
-#[verifier::external_type_specification] #[verifier::external_body] #[verifier::reject_recursive_types(T)] pub struct ExId<T>(id_arena::Id<T>);
+#[verifier::external_type_specification] #[verifier::external_body] #[verifier::accept_recursive_types(T)] pub struct ExId<T>(id_arena::Id<T>);
 #[verifier::external_trait_specification] pub trait ExQueryGroup: Sized { type ExternalTraitSpecificationFor: salsa::plumbing::QueryGroup; }
 #[verifier::external_trait_specification] pub trait ExDatabaseOps { type ExternalTraitSpecificationFor: salsa::plumbing::DatabaseOps; }
 #[verifier::external_trait_specification] pub trait ExSalsaDatabase: salsa::plumbing::DatabaseOps { type ExternalTraitSpecificationFor: salsa::Database; }
@@ -92,7 +92,7 @@ pub assume_specification<L: rowan::Language> [rowan::ast::SyntaxNodePtr::<L>::ne
 #[verifier::external_type_specification] #[verifier::external_body] pub struct ExAstInnerValue(ast::InnerValue);
 #[verifier::external_type_specification] #[verifier::external_body] pub struct ExAstInteger(ast::Integer);
 #[verifier::external_type_specification] #[verifier::external_body] pub struct ExAstBangOperator(ast::BangOperator);
-#[verifier::external_type_specification] #[verifier::external_body] pub struct ExVariable(Variable);
+#[verifier::external_type_specification] pub struct ExVariable(Variable);
 #[verifier::external_type_specification] #[verifier::external_body] pub struct ExBits(syntax::ast::Bits);
 #[verifier::external_type_specification] #[verifier::external_body] pub struct ExBoolean(syntax::ast::Boolean);
 #[verifier::external_type_specification] #[verifier::external_body] pub struct ExClassValue(syntax::ast::ClassValue);
